@@ -50,6 +50,9 @@ def names_loaded(e):
     return {lean_ident(n.id) for n in ast.walk(e) if isinstance(n, ast.Name)}
 
 
+KERNELS = {}  # lean name -> Kernel, every kernel translated in this run (the method wiring of generate_methods looks callees up here)
+
+
 class Kernel:
     def __init__(self, name, params, kinds):
         self.name, self.params, self.kinds = name, params, kinds  # params: [lean names], kinds: name -> kind
@@ -964,7 +967,18 @@ class KTr:
             ps += " (fuel : Nat)"
         src = ast.get_source_segment(self.src_text, fd) if getattr(self, "src_text", None) else None
         text = f"def {name} {ps} (st : φ) : φ :=\n" + "\n".join(lines) + "\n"
-        return Kernel(nfkc(fd.name) if lean_name is None else lean_name, allp, {p: self.kinds[p] for p in allp}), text
+        k = Kernel(nfkc(fd.name) if lean_name is None else lean_name, allp, {p: self.kinds[p] for p in allp})
+        k.lean = name
+        k.pyparams = [lean_ident(a.arg) for a in fd.args.args if a.arg != "self"]
+        k.attr_params = list(self.attr_params)
+        k.shape_params = list(self.shape_params)
+        k.scratch = list(getattr(self, "scratch", []))
+        k.extra = ([("cpowi", "Cx α → Int → Cx α")] if self.uses_cpowi else []) + ([("imsqrt", "Cx α → α")] if self.uses_imsqrt else []) \
+            + ([("fuel", "Nat")] if self.uses_fuel else [])
+        rets = [r.value for r in ast.walk(fd) if isinstance(r, ast.Return) and r.value is not None]
+        k.returns = [lean_ident(r.id) if isinstance(r, ast.Name) else None for r in rets]
+        KERNELS[k.lean] = k
+        return k, text
 
 
 HEADER = """import SphericalVerif.Gen.Indexing
@@ -1178,3 +1192,328 @@ def table_defs(wtree, fns):
                    + (f"; then `self.{name}[m<0] *= -1`" if name in neg else "") + " -/\n"
                    f"def tab{name} ({vars_[0]} {vars_[1]} : Int) : α :=\n  {body}\n")
     return out
+
+
+# ---------------------------------------------------------------------------------------------------------------------
+# method wiring: the per-rotor kernel calls of Wigner.D / sYlm / evaluate(horner) / rotate(horner), from the method text
+# ---------------------------------------------------------------------------------------------------------------------
+METH_HEADER = """import SphericalVerif.Gen.HKern
+import SphericalVerif.Gen.FillKern
+import SphericalVerif.Gen.HornerKern
+import SphericalVerif.Gen.RotHKern
+import SphericalVerif.Gen.CPowKern
+import SphericalVerif.Gen.EulerKern
+/-! GENERATED by vlib/py2lean_kern.py from spherical/wigner.py (the bodies of Wigner.D, Wigner.sYlm, the Horner branches of
+    Wigner.evaluate and Wigner.rotate, and Wigner._split_workspace) -- do not edit.  Regenerated on every check.
+
+    What each public method does **for one rotor**: the kernel calls of the method's loop body (or Horner branch), in the
+    order and with the arguments the Python text gives them, on one flat memory.  Every array the method takes from the
+    workspace (`Hwedge, Hv, Hextra, zₐpowers, zᵧpowers, z`) or writes (`𝔇`, `Y`, the output row/column) is an array id; an
+    argument a callee only reads is passed as the *current content* of that array (`fun i => frd st A i`), exactly what the
+    callee sees in Python; `z[k]` is the complex cell `k` of `z` read at the call; `z[a:b]` the cells `a …`; `zₐpowers[0]` row
+    0 of the 2-d power array, whose shape `(1, size/2)` is read off `_split_workspace`.  Arrays that are inputs of the
+    method (`quaternions[i_R]`, `mode_weights`) are functions.  `self.<attr>` are parameters.  The library operations
+    `complex ** int` and `np.sqrt(complex).imag` are the parameters `cpowi`, `imsqrt` of the callees, passed through.
+
+    `Props/GenChain.lean` proves these definitions equal to the chains its theorems are about. -/
+set_option linter.unusedVariables false
+namespace Gen
+section
+open Scalar
+variable {α : Type} [Scalar α] {φ : Type} [FMem φ α]
+"""
+
+WS_NAMES = [nfkc(n) for n in ["Hwedge", "Hv", "Hextra", "zₐpowers", "zᵧpowers", "z"]]  # (the parser NFKC-normalises identifiers)
+
+
+def workspace_layout(wtree, fns):
+    """`Wigner._split_workspace`: consecutive slices `workspace[i_{k-1}:i_k]`, `i_k = i_{k-1} + size_k`; returns, per returned
+    name, (size expression AST, complex?, 2-d with one leading row?) and checks the shape of the text."""
+    fd = find_function(wtree, "_split_workspace", "Wigner")
+    assigns = {}
+    for s in fd.body:
+        if isinstance(s, ast.Assign) and len(s.targets) == 1 and isinstance(s.targets[0], ast.Name):
+            assigns[s.targets[0].id] = s.value
+    ret = [s for s in fd.body if isinstance(s, ast.Return)]
+    if len(ret) != 1 or ast.unparse(ret[0].value) != "(" + ", ".join(WS_NAMES) + ")":
+        raise TranslationError("Wigner._split_workspace: return " + (ast.unparse(ret[0].value) if ret else "missing"))
+    # boundaries
+    bounds = ["i1", "i2", "i3", "i4", "i5", "i6"]
+    for k, b in enumerate(bounds):
+        want = "size1" if k == 0 else f"{bounds[k - 1]} + size{k + 1}"
+        if b not in assigns or ast.unparse(assigns[b]) != want:
+            raise TranslationError(f"Wigner._split_workspace: {b} = {ast.unparse(assigns[b]) if b in assigns else '?'} (expected {want})")
+    layout = {}
+    for k, nme in enumerate(WS_NAMES):
+        if nme not in assigns:
+            raise TranslationError(f"Wigner._split_workspace: {nme} not assigned")
+        lo = "" if k == 0 else bounds[k - 1]
+        base = f"workspace[{lo}:{bounds[k]}]"
+        txt = nfkc(ast.unparse(assigns[nme]))
+        forms = {base: (False, False), base + ".view(complex)": (True, False), base + ".view(complex)[np.newaxis]": (True, True)}
+        if txt not in forms:
+            raise TranslationError(f"Wigner._split_workspace: {nme} = {txt}")
+        cplx, two_d = forms[txt]
+        layout[lean_ident(nme)] = (assigns[f"size{k + 1}"], cplx, two_d)
+    # __init__ stores the same split on the object
+    init = find_function(wtree, "__init__", "Wigner")
+    want = "(" + ", ".join("self." + n for n in WS_NAMES) + ") = self._split_workspace(workspace)"
+    if not any(isinstance(s, ast.Assign) and nfkc(ast.unparse(s)).replace("(", "").replace(")", "") == nfkc(want).replace("(", "").replace(")", "") for s in ast.walk(init)):
+        raise TranslationError("Wigner.__init__: the object's own workspace is not `self._split_workspace(workspace)`")
+    return layout
+
+
+class MethodTr:
+    """one rotor's worth of kernel calls of a Wigner method"""
+
+    def __init__(self, fns, layout, name, stmts, doc):
+        self.fns, self.layout, self.name, self.stmts, self.doc = fns, layout, name, stmts, doc
+        self.params = []      # [(lean name, lean type)] in order of first use
+        self.locals = {}      # python-level locals defined in the body: lean name -> kind
+        self.alias = {}       # local name -> array id parameter (row views such as `𝔇 = function_values[i_R]`)
+        self.attr = {}
+
+    def param(self, n, ty):
+        for (m, t) in self.params:
+            if m == n:
+                if t != ty:
+                    raise TranslationError(f"{self.name}: parameter {n} used as {t} and as {ty}")
+                return n
+        self.params.append((n, ty))
+        return n
+
+    def iexpr(self, e):
+        kinds = {n: "int" for n, k in self.locals.items() if k == INT}
+        for x in ast.walk(e):
+            if isinstance(x, ast.Name) and lean_ident(x.id) not in self.locals and x.id not in ("abs", "min", "max", "self"):
+                self.param(lean_ident(x.id), "Int")
+                kinds[lean_ident(x.id)] = "int"
+        attrs = {}
+        tr = Tr(Ctx(self.fns, None), kinds, attr_params=attrs)
+        r = tr.expr(e)
+        for a in attrs:
+            self.param(a, "Int")
+        return r
+
+    def array_id(self, a):
+        """an argument the callee writes (or aliases): an array id"""
+        if isinstance(a, ast.Name):
+            n = lean_ident(a.id)
+            n = self.alias.get(n, n)
+            return self.param(n, "Nat")
+        if isinstance(a, ast.Subscript) and isinstance(a.value, ast.Name):
+            # a row / column view of an output array: its own id
+            txt = nfkc(ast.unparse(a.slice))
+            if txt in ("i_R", "(..., i_R)"):
+                return self.param(lean_ident(a.value.id) + ("_row" if txt == "i_R" else "_col"), "Nat")
+        raise TranslationError(f"{self.name}: array argument {ast.unparse(a)}")
+
+    def const_int(self, e):
+        if isinstance(e, ast.Constant) and isinstance(e.value, int) and not isinstance(e.value, bool):
+            return e.value
+        raise TranslationError(f"{self.name}: constant index expected, got {ast.unparse(e)}")
+
+    def shape_of(self, a, which):
+        """value of the callee's shape parameter `which` ('size' | 'shape0' | 'shape1') for the argument `a`"""
+        if isinstance(a, ast.Subscript) and isinstance(a.slice, ast.Slice) and isinstance(a.value, ast.Name):
+            lo, hi = self.const_int(a.slice.lower), self.const_int(a.slice.upper)
+            if which in ("size", "shape0") and a.slice.step is None:
+                return f"({hi - lo} : Int)"
+        if isinstance(a, ast.Name):
+            n = lean_ident(a.id)
+            if n in self.layout:
+                size, cplx, two_d = self.layout[n]
+                sz = self.iexpr(size)
+                if cplx:
+                    sz = f"({sz} / 2)"
+                if two_d:
+                    return {"shape0": "(1 : Int)", "shape1": sz, "size": sz}[which]
+                return {"shape0": sz, "size": sz}[which]
+            return self.param(f"{n}_{which}", "Int")
+        raise TranslationError(f"{self.name}: {which} of {ast.unparse(a)}")
+
+    def read_fn(self, a, cplx):
+        """an argument the callee only reads, as a function of the index"""
+        rd = "frdC" if cplx else "frd"
+        if isinstance(a, ast.Name):
+            n = lean_ident(a.id)
+            n = self.alias.get(n, n)
+            if n in self.layout or n in self.alias.values():
+                if (n in self.layout) and self.layout[n][1] != cplx:
+                    raise TranslationError(f"{self.name}: element kind of {n}")
+                return f"(fun i => {rd} (α := α) st {self.param(n, 'Nat')} i)"
+            return self.param(n, "Int → Cx α" if cplx else "Int → α")          # an input of the method
+        if isinstance(a, ast.Subscript) and isinstance(a.value, ast.Name):
+            n = lean_ident(a.value.id)
+            if n in self.layout:
+                size, c2, two_d = self.layout[n]
+                if c2 != cplx:
+                    raise TranslationError(f"{self.name}: element kind of {n}")
+                if isinstance(a.slice, ast.Slice):
+                    if two_d or a.slice.step is not None:
+                        raise TranslationError(f"{self.name}: slice {ast.unparse(a)}")
+                    lo = self.const_int(a.slice.lower)
+                    return f"(fun i => {rd} (α := α) st {self.param(n, 'Nat')} (({lo} : Int) + i))"
+                if two_d and self.const_int(a.slice) == 0:
+                    return f"(fun i => {rd} (α := α) st {self.param(n, 'Nat')} i)"     # row 0 of a C-contiguous 2-d array
+                raise TranslationError(f"{self.name}: view {ast.unparse(a)}")
+            if nfkc(ast.unparse(a.slice)) == "i_R":
+                return self.param(n + "_row", "Int → Cx α" if cplx else "Int → α")   # one row of an input of the method
+        raise TranslationError(f"{self.name}: read-only argument {ast.unparse(a)}")
+
+    def cx_val(self, a):
+        if isinstance(a, ast.Name) and self.locals.get(lean_ident(a.id)) == CX:
+            return lean_ident(a.id)
+        if isinstance(a, ast.Subscript) and isinstance(a.value, ast.Name) and lean_ident(a.value.id) in self.layout:
+            n = lean_ident(a.value.id)
+            size, cplx, two_d = self.layout[n]
+            if cplx and not two_d:
+                return f"(frdC (α := α) st {self.param(n, 'Nat')} ({self.const_int(a.slice)} : Int))"
+        if isinstance(a, ast.BinOp) and isinstance(a.op, ast.Pow):
+            self.param("cpowi", "Cx α → Int → Cx α")
+            return f"(cpowi {self.cx_val(a.left)} {self.iexpr(a.right)})"
+        raise TranslationError(f"{self.name}: complex argument {ast.unparse(a)}")
+
+    def call(self, c, assigned=None):
+        f = c.func
+        if c.keywords:
+            raise TranslationError(f"{self.name}: keyword call {ast.unparse(c)}")
+        if isinstance(f, ast.Name):
+            lname = "u_to_euler_phases" if f.id == "to_euler_phases" else lean_ident(f.id)
+        elif isinstance(f, ast.Attribute) and isinstance(f.value, ast.Name) and f.value.id == "self" and f.attr == "H":
+            lname = "Wigner_H"
+        else:
+            raise TranslationError(f"{self.name}: call {ast.unparse(c)}")
+        k = KERNELS.get(lname)
+        if k is None:
+            raise TranslationError(f"{self.name}: callee {ast.unparse(f)} is not a translated kernel")
+        if len(c.args) != len(k.pyparams):
+            raise TranslationError(f"{self.name}: arity of {ast.unparse(c)}")
+        byparam = dict(zip(k.pyparams, c.args))
+        args = []
+        for p in k.params:
+            kind = k.kinds[p]
+            if p in k.attr_params:
+                args.append(self.param(p, LEAN_TY[kind]))       # self.<attr> of the callee: the same object
+            elif p in byparam:
+                a = byparam[p]
+                if kind == INT:
+                    args.append(self.iexpr(a))
+                elif kind in (ARR, CARR):
+                    args.append(self.array_id(a))
+                elif kind in (TAB, CTAB):
+                    args.append(self.read_fn(a, kind == CTAB))
+                elif kind == CX:
+                    args.append(self.cx_val(a))
+                else:
+                    raise TranslationError(f"{self.name}: argument kind {kind} of {lname}.{p}")
+            elif p in k.scratch:
+                args.append(self.param(p, "Nat"))       # an array the callee allocates itself (np.zeros): a fresh id
+            else:
+                base = [q for q in k.pyparams if p.startswith(q + "_")]
+                if not base:
+                    raise TranslationError(f"{self.name}: parameter {p} of {lname}")
+                q = max(base, key=len)
+                args.append(self.shape_of(byparam[q], p[len(q) + 1:]))
+        for (n, ty) in k.extra:
+            if n == "fuel":
+                args.append("4")        # `while z.real<0 or z.imag<0` runs at most three times (C14.quadrant_loop_le3); 4 = the model's fuel
+            else:
+                args.append(self.param(n, ty))
+        if assigned is not None:
+            # `X = callee(...)`: the callee must return the array it was handed under that very name
+            i = k.pyparams.index(assigned) if assigned in k.pyparams else -1
+            ok = i >= 0 and k.returns and all(r == assigned for r in k.returns) and isinstance(c.args[i], ast.Name) and lean_ident(c.args[i].id) == assigned
+            if not ok:
+                raise TranslationError(f"{self.name}: {assigned} = {ast.unparse(c)} does not return its own argument")
+        return f"  let st : φ := {lname} (α := α) {' '.join(args)} st"
+
+    def translate(self):
+        lines = []
+        for s in self.stmts:
+            if isinstance(s, ast.Expr) and isinstance(s.value, ast.Call):
+                lines.append(self.call(s.value))
+            elif isinstance(s, ast.Assign) and len(s.targets) == 1 and isinstance(s.targets[0], ast.Name):
+                t = lean_ident(s.targets[0].id)
+                v = s.value
+                if isinstance(v, ast.Call):
+                    lines.append(self.call(v, assigned=t))
+                elif isinstance(v, ast.Subscript) and isinstance(v.value, ast.Name) and nfkc(ast.unparse(v.slice)) == "i_R":
+                    self.alias[t] = self.param(lean_ident(v.value.id) + "_row", "Nat")
+                elif isinstance(v, ast.BinOp):
+                    lines.append(f"  let {t} : Cx α := {self.cx_val(v)}")
+                    self.locals[t] = CX
+                else:
+                    raise TranslationError(f"{self.name}: statement {ast.unparse(s)}")
+            else:
+                raise TranslationError(f"{self.name}: statement {ast.unparse(s)}")
+        ps = " ".join(f"({n} : {t})" for n, t in self.params)
+        src = "\n".join("      " + nfkc(ast.unparse(s)) for s in self.stmts)
+        return (f"/-- {self.doc}\n\n{src} -/\n" f"def {self.name} {ps} (st : φ) : φ :=\n" + "\n".join(lines) + "\n  st\n"), list(self.params)
+
+
+def rotor_loop(fd, where):
+    """the body of `for i_R in range(quaternions.shape[0]):` inside `where` (a statement list)"""
+    loops = [s for s in where if isinstance(s, ast.For) and isinstance(s.target, ast.Name) and s.target.id == "i_R"]
+    if len(loops) != 1 or nfkc(ast.unparse(loops[0].iter)) != "range(quaternions.shape[0])" or loops[0].orelse:
+        raise TranslationError(f"Wigner.{fd.name}: rotor loop not found")
+    return loops[0].body
+
+
+def horner_branch(fd, test_ok):
+    ifs = [s for s in fd.body if isinstance(s, ast.If) and test_ok(nfkc(ast.unparse(s.test)))]
+    if len(ifs) != 1:
+        raise TranslationError(f"Wigner.{fd.name}: Horner branch not found")
+    body = list(ifs[0].body)
+    # leading workspace selection:  if workspace is not None: <names> = self._split_workspace(workspace)  else: <names> = self.<names>
+    if not (body and isinstance(body[0], ast.If) and nfkc(ast.unparse(body[0].test)) == "workspace is not None"):
+        raise TranslationError(f"Wigner.{fd.name}: workspace selection not found")
+    check_ws_selection(fd, body[0])
+    return body[1:]
+
+
+def check_ws_selection(fd, s):
+    """both arms bind the workspace names to the corresponding parts (of the given workspace / of the object's own)"""
+    def names(t):
+        return [nfkc(x.id) if isinstance(x, ast.Name) else None for x in t.elts]
+    if len(s.body) != 1 or len(s.orelse) != 1:
+        raise TranslationError(f"Wigner.{fd.name}: workspace selection {ast.unparse(s)}")
+    a, b = s.body[0], s.orelse[0]
+    ok = isinstance(a, ast.Assign) and isinstance(b, ast.Assign) and isinstance(a.targets[0], ast.Tuple) and isinstance(b.targets[0], ast.Tuple)
+    if ok:
+        ta, tb = names(a.targets[0]), names(b.targets[0])
+        want = [nfkc(n) for n in WS_NAMES]
+        ok = nfkc(ast.unparse(a.value)) == "self._split_workspace(workspace)" and len(ta) == 6 and all(x in (w, "_") for x, w in zip(ta, want))
+        kept = [w for x, w in zip(ta, want) if x != "_"]
+        ok = ok and tb == kept and isinstance(b.value, ast.Tuple) and [nfkc(ast.unparse(x)) for x in b.value.elts] == ["self." + w for w in kept]
+    if not ok:
+        raise TranslationError(f"Wigner.{fd.name}: workspace selection {ast.unparse(s)}")
+
+
+def generate_methods(fns, gen_dir, write_if_changed):
+    wtree = ast.parse(open(os.path.join(REPO, "spherical/wigner.py"), encoding="utf-8").read())
+    layout = workspace_layout(wtree, fns)
+    out = [METH_HEADER]
+    sig = {}
+    jobs = []
+    for meth, lname, doc in [("D", "Wigner_D_rotor", "the loop body of `Wigner.D` (one rotor)"),
+                             ("sYlm", "Wigner_sYlm_rotor", "the loop body of `Wigner.sYlm` (one rotor)")]:
+        fd = find_function(wtree, meth, "Wigner")
+        sel = [s for s in fd.body if isinstance(s, ast.If) and nfkc(ast.unparse(s.test)) == "workspace is not None"]
+        if len(sel) != 1:
+            raise TranslationError(f"Wigner.{meth}: workspace selection not found")
+        check_ws_selection(fd, sel[0])
+        jobs.append((lname, rotor_loop(fd, fd.body), doc))
+    fd = find_function(wtree, "evaluate", "Wigner")
+    jobs.append(("Wigner_evaluate_rotor", rotor_loop(fd, horner_branch(fd, lambda t: t == "horner")),
+                 "the loop body of the Horner branch of `Wigner.evaluate` (one rotor: one column of the output)"))
+    fd = find_function(wtree, "rotate", "Wigner")
+    jobs.append(("Wigner_rotate_rotor", horner_branch(fd, lambda t: t.startswith("horner or ")),
+                 "the Horner branch of `Wigner.rotate` (after the workspace selection)"))
+    for lname, stmts, doc in jobs:
+        txt, params = MethodTr(fns, layout, lname, stmts, doc).translate()
+        out.append(txt)
+        sig[lname] = params
+    out.append("end\nend Gen\n")
+    write_if_changed(os.path.join(gen_dir, "MethodKern.lean"), "\n".join(out))
+    return sig
